@@ -21,7 +21,7 @@ from common import Report
 from tlc import run_tlc
 
 
-def build(kind, seed, log_interval):
+def build(kind, seed, log_interval, with_log=True, files=None, data=None):
     from quansino.io.core import Observer
     from quansino.mc.canonical import Canonical
     from quansino.mc.fbmc import ForceBias
@@ -33,8 +33,15 @@ def build(kind, seed, log_interval):
     rs = np.random.RandomState(5)
     atoms = Atoms("Cu4", positions=rs.rand(4, 3) * 3 + 2, cell=[8, 8, 8], pbc=True)
     atoms.calc = Harmonic(k=0.3, centers=atoms.positions + 0.2, eps=0.02)
-    files = {"log": io.StringIO(), "traj": io.StringIO()}
-    kw = dict(seed=seed, logfile=files["log"], trajectory=files["traj"], logging_interval=log_interval)
+    files = files or {"log": io.StringIO(), "traj": io.StringIO()}
+    kw = dict(seed=seed, logfile=files["log"] if with_log else None, trajectory=files["traj"], logging_interval=log_interval)
+    if data is not None:
+        # the restart path: the same files are handed to the rebuilt simulation, a calculator is attached again
+        cls = {"canonical": Canonical, "gc": GrandCanonical, "fbmc": ForceBias}[kind]
+        kw.pop("seed")
+        mc = cls.from_dict(data, **kw)
+        mc.atoms.calc = Harmonic(k=0.3, centers=atoms.positions + 0.2, eps=0.02)
+        return mc, files
     if kind == "canonical":
         mc = Canonical(atoms, temperature=800.0, max_cycles=2, **kw)
         mc.add_move(DisplacementMove(np.arange(4), Ball(0.3)))
@@ -51,13 +58,13 @@ class Rec:
     pass
 
 
-def attach(mc, intervals):
+def attach(mc, intervals, logs=None):
     from quansino.io.core import Observer
 
-    logs = {}
+    logs = logs if logs is not None else {}
 
     for iv in intervals:
-        log = []
+        log = logs.get(iv, [])
 
         class R(Observer):
             def __init__(self, interval, log):
@@ -80,10 +87,12 @@ def attach(mc, intervals):
     return logs
 
 
-def execute(mc, plan, is_mc):
+def execute(mc, plan, is_mc, rebuild=None):
     for call in plan:
         n, entry = call["n"], call["entry"]
-        if entry == "run" or (entry == "srun" and not is_mc):
+        if entry == "rebuild":
+            mc = rebuild(mc)
+        elif entry == "run" or (entry == "srun" and not is_mc):
             mc.run(n)
         elif entry == "srun":
             for _ in mc.srun(n):
@@ -93,6 +102,7 @@ def execute(mc, plan, is_mc):
                 if is_mc:
                     for _ in st:
                         pass
+    return mc
 
 
 def run(tier: str) -> int:
@@ -114,31 +124,44 @@ def run(tier: str) -> int:
         cases = [json.loads(l) for l in open(out)]
     finally:
         shutil.rmtree(tmp, ignore_errors=True)
-    stride = 5 if tier == "quick" else (7 if len(cases) > 40000 else 1)
+    stride = 13 if tier == "quick" else (7 if len(cases) > 100000 else 1)
     kinds = ("canonical", "gc", "fbmc")
     nrep = 0
     for ci, c in enumerate(cases):
         if ci % stride:
             continue
         kind = kinds[(ci // stride) % 3]
+        if kind == "fbmc" and any(call["entry"] == "rebuild" for call in c["plan"]):
+            kind = "canonical" if ci % 2 else "gc"  # ForceBias offers no from_dict
         is_mc = kind != "fbmc"
         obs = c["obs"]
         pos = [i for i in obs if i > 0]
         log_iv = pos[0] if pos else obs[0]
         seed = 1000 + ci
         nrep += 1
-        zero = any(call["n"] == 0 for call in c["plan"])
+        zero = any(call["n"] == 0 and call["entry"] != "rebuild" for call in c["plan"])
         first_zero = c["plan"][0]["n"] == 0
         rep.count(json.dumps([c["plan"], obs, kind]), nontrivial=len(c["plan"]) > 1)
         if nrep % 300 == 1:
             rep.sample({"plan": c["plan"], "observer_intervals": obs, "driver": kind, "expected_calls": c["expected"]})
         ctx = {"case": c, "driver": kind, "seed": seed}
-        tag = f"{kind}:{'zero-length-first' if first_zero else ('zero-length-call' if zero else 'split')}"
+        has_rebuild = any(call["entry"] == "rebuild" for call in c["plan"])
+        tag = f"{kind}:{'rebuilt:' if has_rebuild else ''}{'' if c['log'] else 'no-logfile:'}{'zero-length-first' if first_zero else ('zero-length-call' if zero else 'split')}"
         try:
-            mc, files = build(kind, seed, log_iv)
+            with_log = bool(c["log"])
+            mc, files = build(kind, seed, log_iv, with_log)
             logs = attach(mc, obs)
-            execute(mc, c["plan"], is_mc)
-            ref, rfiles = build(kind, seed, log_iv)
+
+            def rebuild(old, kind=kind, log_iv=log_iv, with_log=with_log, files=files, logs=logs, obs=obs):
+                from ase.io.jsonio import decode, encode
+
+                data = decode(encode(old.to_dict()))
+                new, _ = build(kind, None, log_iv, with_log, files=files, data=data)
+                attach(new, obs, logs)
+                return new
+
+            mc = execute(mc, c["plan"], is_mc, rebuild)
+            ref, rfiles = build(kind, seed, log_iv, with_log)
             rlogs = attach(ref, obs)
             ref.run(c["total"])
         except Exception as ex:  # noqa: BLE001
@@ -152,18 +175,29 @@ def run(tier: str) -> int:
                 break
         if int(mc.step_count) != c["total"]:
             rep.violation(f"step-count:{tag}", f"{kind}: step counter {mc.step_count} after plan {c['plan']}, expected {c['total']}", ctx)
-        log = files["log"].getvalue()
-        rlog = rfiles["log"].getvalue()
+        log = files["log"].getvalue() if with_log else ""
+        rlog = rfiles["log"].getvalue() if with_log else ""
         lines = log.splitlines()
         nrows = len([s for s in range(c["total"] + 1) if (log_iv > 0 and s % log_iv == 0) or (log_iv < 0 and s == -log_iv)])
         header = lines[0] if lines else ""
-        if lines and lines.count(header) != 1:
+        if not with_log:
+            pass
+        elif lines and lines.count(header) != 1:
             rep.violation(f"header:{tag}", f"{kind}: log header written {lines.count(header)} times (plan {c['plan']})", ctx)
         elif len(lines) != (nrows + 1 if (nrows or lines) else 0):
             rep.violation(f"log-rows:{tag}", f"{kind}: log has {len(lines) - 1} rows, schedule says {nrows} (plan {c['plan']})", ctx)
         if log != rlog:
             rep.violation(f"log-differs-from-unsplit:{tag}", f"{kind}: log file after plan {c['plan']} differs from run({c['total']})", dict(ctx, split_log=log[-600:], unsplit_log=rlog[-600:]))
-        if files["traj"].getvalue() != rfiles["traj"].getvalue():
+        if has_rebuild:
+            # a rebuilt simulation has a fresh calculator: whether a frame carries energy/forces depends on what the
+            # calculator has cached at that moment (not on the schedule) -- compare frames and positions
+            from ase.io import read
+
+            fa = read(io.StringIO(files["traj"].getvalue()), index=":", format="extxyz") if files["traj"].getvalue() else []
+            fb = read(io.StringIO(rfiles["traj"].getvalue()), index=":", format="extxyz") if rfiles["traj"].getvalue() else []
+            if len(fa) != len(fb) or any(len(x) != len(y) or not np.allclose(x.positions, y.positions, atol=1e-7) for x, y in zip(fa, fb)):
+                rep.violation(f"trajectory-differs-from-unsplit:{tag}", f"{kind}: trajectory frames after plan {c['plan']} differ from run({c['total']}) ({len(fa)} vs {len(fb)} frames)", ctx)
+        elif files["traj"].getvalue() != rfiles["traj"].getvalue():
             rep.violation(f"trajectory-differs-from-unsplit:{tag}", f"{kind}: trajectory file after plan {c['plan']} differs from run({c['total']})", ctx)
         if mc.atoms.positions.tobytes() != ref.atoms.positions.tobytes() or len(mc.atoms) != len(ref.atoms):
             rep.violation(f"atoms-differ-from-unsplit:{tag}", f"{kind}: final atoms after plan {c['plan']} differ from run({c['total']})", ctx)
